@@ -291,6 +291,8 @@ class ScanValidatorAny(Contract):
         "image_paths": (("treeinfo", "Images"), "_validate_image_paths", "images", 2),
         "platforms": (("treeinfo", "Images"), "_validate_platforms", "images", 1),
         "checksum_paths": (("treeinfo", "Checksums"), "_validate_checksum_paths", "checksums", 1),
+        # composeinfo: every arch of a child variant is an arch of its parent (sets of arbitrary size)
+        "parent_arch": (("composeinfo", "Variant"), "_validate_parent_arch", "arches", 1),
     }
 
     def __init__(self, src, T, which):
@@ -302,6 +304,16 @@ class ScanValidatorAny(Contract):
     def setup(self, E):
         from pyvc.anycoll import AnyDict, AnySet
         cls, meth, attr, depth = self.SPECS[self.which]
+        if self.which == "parent_arch":
+            ci = E.instantiate(("composeinfo", "ComposeInfo"))
+            parent = E.instantiate(("composeinfo", "Variant"), [ci])
+            o = E.instantiate(("composeinfo", "Variant"), [ci])
+            o.fields["parent"] = parent
+            listed = AnySet("parent.arches", None)
+            parent.fields["arches"] = listed
+            table = AnySet("arches", lambda E_, tag: SV(sym.Val.VStr(E_.fresh("arch.%s" % tag, sym.S))))
+            o.fields["arches"] = table
+            return {"o": o, "table": table, "mark": len(E.path.effects), "listed": listed}
         ti = E.instantiate(("treeinfo", "TreeInfo"))
         o = ti.fields["images"] if cls[1] == "Images" else ti.fields["checksums"]
 
@@ -330,7 +342,7 @@ class ScanValidatorAny(Contract):
         depth = self.SPECS[self.which][3]
 
         def bad(entry):
-            if self.which == "platforms":
+            if self.which in ("platforms", "parent_arch"):
                 from pyvc.anycoll import member_key
                 bit = st["listed"].member_bits.get(member_key(entry))
                 return Not(bit) if bit is not None else True
@@ -381,6 +393,13 @@ class ScanValidatorAny(Contract):
             ti.images.images = dict(("plat%d" % i, {"kernel": "k"}) for i in range(n))
             ti.tree.platforms = set("plat%d" % i for i in range(n) if i != badpos)
             o = ti.images
+        elif self.which == "parent_arch":
+            CI = self.src.mods["composeinfo"]
+            ci = CI.ComposeInfo()
+            parent, o = CI.Variant(ci), CI.Variant(ci)
+            arches = ["src", "x86_64", "s390x", "aarch64"][:n]
+            o.parent, o.arches, o.uid = parent, set(arches), "P-C"
+            parent.arches = set(a for i, a in enumerate(arches) if i != badpos) | set(["i386"])
         else:
             ti.checksums.checksums = dict((("/abs/%s" % x) if i == badpos else "rel/%s" % x, ("sha256", "0" * 64)) for i, x in enumerate(names))
             o = ti.checksums
